@@ -62,6 +62,7 @@ structure Cfg where
   pIdle : Bool
   pWi : Bool
   pSize : Bool
+  unchangedChecksType : Bool   -- RegisterPattern's "not changed" early return also compares the swamp type
   deriving DecidableEq, Repr
 
 def rank (cfg : Cfg) (p : Name) : Int :=
@@ -95,22 +96,51 @@ def ResolvesTo (cfg : Cfg) (reg : List Entry) (n : Name) (e : Entry) : Prop :=
 
 def hasKey (k : Bytes) (e : Entry) : Bool := canon e.pat == k
 
-/-- the "already registered and not changed" test of `RegisterPattern` (ignores the in-memory flag) -/
-def unchanged (reg : List Entry) (k : Bytes) (idle wi size : Int) : Bool :=
+/-- the "already registered and not changed" test of `RegisterPattern`; in the original code it
+    ignores whether the stored entry is in-memory (`unchangedChecksType = false`) -/
+def unchanged (cfg : Cfg) (reg : List Entry) (k : Bytes) (idle wi size : Int) : Bool :=
   match reg.find? (hasKey k) with
-  | some e => e.f.idle == idle && e.f.wi == wi && e.f.size == size
+  | some e => e.f.idle == idle && e.f.wi == wi && e.f.size == size && (!cfg.unchangedChecksType || !e.f.inMem)
   | none => false
 
+/-- the entry a registration stores -/
+def entryOf (p : Name) (inMem : Bool) (idle wi size : Int) : Entry :=
+  ⟨p, if inMem then ⟨true, idle, 0, 0⟩ else ⟨false, idle, wi, size⟩⟩
+
 /-- `RegisterPattern(pattern, inMem, idle, &FileSystemSettings{wi, size})` -/
-def register (reg : List Entry) (p : Name) (inMem : Bool) (idle wi size : Int) : List Entry :=
+def register (cfg : Cfg) (reg : List Entry) (p : Name) (inMem : Bool) (idle wi size : Int) : List Entry :=
   let k := canon p
-  if !inMem && unchanged reg k idle wi size then reg
-  else reg.filter (fun e => !hasKey k e) ++
-        [⟨p, if inMem then ⟨true, idle, 0, 0⟩ else ⟨false, idle, wi, size⟩⟩]
+  if !inMem && unchanged cfg reg k idle wi size then reg
+  else reg.filter (fun e => !hasKey k e) ++ [entryOf p inMem idle wi size]
 
 /-- `DeregisterPattern(pattern)` -/
 def deregister (reg : List Entry) (p : Name) : List Entry :=
   reg.filter (fun e => !hasKey (canon p) e)
+
+/-- registration histories -/
+inductive RegOp where
+  | reg (p : Name) (inMem : Bool) (idle wi size : Int)
+  | dereg (p : Name)
+
+def RegOp.pat : RegOp → Name
+  | .reg p _ _ _ _ => p
+  | .dereg p => p
+
+def applyOp (cfg : Cfg) (reg : List Entry) : RegOp → List Entry
+  | .reg p m i w s => register cfg reg p m i w s
+  | .dereg p => deregister reg p
+
+def runOps (cfg : Cfg) (reg : List Entry) (h : List RegOp) : List Entry := h.foldl (applyOp cfg) reg
+
+/-- the stored entry of a key -/
+def entryFor (reg : List Entry) (k : Bytes) : Option Entry := reg.find? (hasKey k)
+
+/-- Spec of the registry as a function key ↦ last registration (nothing after a deregistration) -/
+def specOp (f : Bytes → Option Entry) : RegOp → Bytes → Option Entry
+  | .reg p m i w s => fun k => if k = canon p then some (entryOf p m i w s) else f k
+  | .dereg p => fun k => if k = canon p then none else f k
+
+def specRun (f : Bytes → Option Entry) (h : List RegOp) : Bytes → Option Entry := h.foldl specOp f
 
 /-- one record of settings.json -/
 structure PatternModel where
